@@ -67,11 +67,11 @@ Qed.
 Lemma track_composite : forall f q c al n, composite q ->
   memq (QS n) (bd (track f q c al)) = false /\ gl (track f q c al) = [] /\ nl (track f q c al) = [].
 Proof.
-  intros f q c al n H. unfold composite in H. unfold track.
+  intros f q c al n H. pose proof (H n) as Hn. simpl in Hn. unfold track.
   destruct (fl_annonly f && negb (fl_ann f)); [simpl; auto|].
   destruct (hidden f q); [simpl; auto|].
-  destruct c; [simpl; auto | | simpl; rewrite ?H; auto].
-  destruct (fl_incomp f); simpl; rewrite ?H; auto. Show.
+  destruct c; [simpl; auto | | simpl; rewrite ?Hn; auto].
+  destruct (fl_incomp f); simpl; rewrite ?Hn; auto.
 Qed.
 
 Lemma track_simple_gn : forall f q c al, gl (track f q c al) = [] /\ nl (track f q c al) = [].
